@@ -385,3 +385,33 @@ def finish(ctx, level_note=""):
     print(f"[{ctx.prop}] tier={ctx.tier} seed={ctx.seed} obligations={ob_ok}/{ob_total} evaluations={ctx.evaluations} "
           f"disagreements={len(ctx.disagreements)} oracle_failures={len(new_oracle)} wall={wall:.1f}s")
     return 1 if violations else 0
+
+
+def generic_replay(ctx):
+    """Re-runs the failing case(s) recorded in a replay file against the real code and prints what the
+    oracle reports.  Exit 1 if the failure reproduces, 0 otherwise."""
+    rep = ctx.replay or {}
+    fails = rep.get("failures") or []
+    if not fails:
+        print(json.dumps(rep, indent=1)[:4000])
+        print("this replay names proof obligations / correspondence traces, not a failing input; re-run the check itself")
+        return 0
+    reproduced = 0
+    for f in fails[:5]:
+        print("---- recorded failure:", (f.get("message") or f.get("what") or "")[:400])
+        for h in (f.get("history") or [])[-8:]:
+            print("     ", h[:200])
+        cmd = f.get("replay")
+        if not cmd:
+            print("     input:", json.dumps({k: v for k, v in f.items() if k in ("query", "implementation", "spec", "program")})[:600])
+            continue
+        cmd = cmd.split("#")[0].strip()
+        print("     re-running:", cmd)
+        p = subprocess.run(cmd, shell=True, capture_output=True, text=True, cwd=VERIF, timeout=3600)
+        lines = [l for l in p.stdout.splitlines() if l.startswith("oracle ")]
+        for l in lines[:5]:
+            print("     ", l[:300])
+        if lines or p.returncode != 0:
+            reproduced += 1
+    print(f"reproduced {reproduced} of {min(len(fails), 5)} recorded failure(s)")
+    return 1 if reproduced else 0
